@@ -70,6 +70,12 @@ type Dep struct {
 	D *int64 `json:"d"`
 }
 
+// Settings is the struct-mapped root of model kind "objnest"; its sub-object "limits" stays in map form.
+type Settings struct {
+	N      *int64         `json:"n"`
+	Limits map[string]any `json:"limits"`
+}
+
 type MemberA struct {
 	N int64 `json:"n"`
 }
@@ -99,6 +105,9 @@ type instance struct {
 	initCount *int64
 	seenMu    *sync.Mutex
 	seen      map[string]map[int64]bool // run -> data identities seen by handlers
+
+	peers map[string]any // compat2: the schemas this one is compared with; SHARED by all calls (schemas are
+	// values that may be shared), so that concurrent calls compare the same pair
 
 	needsApply bool // the rebuilt scope had unlinked references before ApplySelf
 }
@@ -162,6 +171,9 @@ var ckinds = map[string]kindInfo{
 	"plugin_input":  {"objmap", []string{"rebuilt"}}, // step input of a schema returned by UnserializeSchema
 	"objstruct":     {"objstruct", []string{"fresh", "rebuilt"}},
 	"objdep":        {"objdep", []string{"fresh", "rebuilt"}},
+	"objnest":       {"objnest", []string{"fresh", "rebuilt"}},
+	"chain":         {"chain", []string{"fresh", "rebuilt"}},
+	"compat2":       {"compat2", []string{"fresh", "rebuilt"}},
 	"mapcoll":       {"mapcoll", []string{"fresh", "rebuilt"}},
 	"anycoll":       {"mapcoll", []string{"fresh", "rebuilt"}},
 	"oneof_map":     {"oneof", []string{"fresh", "rebuilt"}},
@@ -236,6 +248,38 @@ func buildScope(ckind string) (*schema.ScopeSchema, error) {
 			"s": prop(schema.NewRefSchema("inner", nil), schema.PointerTo(`{"a":5}`)),
 		})
 		return schema.NewScopeSchema(root, inner), nil
+	case "chain":
+		// four single-property objects linked by references; the last one holds an integer
+		const depth = 4
+		objs := make([]*schema.ObjectSchema, depth)
+		for i := 0; i < depth; i++ {
+			id := fmt.Sprintf("level%d", i)
+			if i == depth-1 {
+				objs[i] = schema.NewObjectSchema(id, map[string]*schema.PropertySchema{
+					"value": schema.NewPropertySchema(intMax10(), nil, true, nil, nil, nil, nil, nil)})
+			} else {
+				objs[i] = schema.NewObjectSchema(id, map[string]*schema.PropertySchema{
+					"next": schema.NewPropertySchema(schema.NewRefSchema(fmt.Sprintf("level%d", i+1), nil), nil, true, nil, nil, nil, nil, nil)})
+			}
+		}
+		return schema.NewScopeSchema(objs[0], objs[1:]...), nil
+	case "compat2":
+		return compatScope(false), nil
+	case "objnest":
+		// struct-mapped root -> map-based sub-object without a default of its own -> nested object with defaults
+		leaf := schema.NewObjectSchema("leaf", map[string]*schema.PropertySchema{
+			"f": prop(intT(), schema.PointerTo("2")),
+			"w": prop(intT(), schema.PointerTo("6")),
+		})
+		mid := schema.NewObjectSchema("mid", map[string]*schema.PropertySchema{
+			"u":     prop(intT(), nil),
+			"burst": prop(schema.NewRefSchema("leaf", nil), nil),
+		})
+		root := schema.NewStructMappedObjectSchema[Settings]("root", map[string]*schema.PropertySchema{
+			"n":      prop(intT(), nil),
+			"limits": prop(schema.NewRefSchema("mid", nil), nil),
+		})
+		return schema.NewScopeSchema(root, mid, leaf), nil
 	case "objdep":
 		return schema.NewScopeSchema(schema.NewStructMappedObjectSchema[Dep]("root", map[string]*schema.PropertySchema{
 			"a": schema.NewPropertySchema(intT(), nil, false, nil, nil, []string{"b"}, nil, nil),
@@ -271,6 +315,21 @@ func buildScope(ckind string) (*schema.ScopeSchema, error) {
 		return wrap(schema.NewIntSchema(nil, nil, u)), nil
 	}
 	return nil, fmt.Errorf("unknown concrete kind %q", ckind)
+}
+
+// compatScope: Root{a..e, limits: ref Limits}, Limits{count}; with deep=true count is a string - incompatible
+// deep inside, everything else equal.
+func compatScope(deep bool) *schema.ScopeSchema {
+	var count schema.Type = intT()
+	if deep {
+		count = schema.NewStringSchema(nil, nil, nil)
+	}
+	limits := schema.NewObjectSchema("Limits", map[string]*schema.PropertySchema{"count": prop(count, nil)})
+	props := map[string]*schema.PropertySchema{"limits": prop(schema.NewRefSchema("Limits", nil), nil)}
+	for _, n := range []string{"a", "b", "c", "d", "e", "f", "g", "h"} {
+		props[n] = prop(intT(), nil)
+	}
+	return schema.NewScopeSchema(schema.NewObjectSchema("Root", props), limits)
 }
 
 // rebuild describes a scope and builds a new one from the description, as a receiving party would.
@@ -340,10 +399,13 @@ func build(ckind, origin string) (*instance, error) {
 	}
 	in.scope = s
 	switch info.kind {
-	case "objmap", "objstruct", "objdep", "meta":
+	case "objmap", "objstruct", "objdep", "objnest", "chain", "compat2", "meta":
 		in.target = s
 	default:
 		in.target = targetOf(s)
+	}
+	if info.kind == "compat2" {
+		in.peers = map[string]any{"same": compatScope(false), "deep": compatScope(true)}
 	}
 	if info.kind == "units" || info.kind == "units0" {
 		switch t := in.target.(type) {
